@@ -163,7 +163,7 @@ def probes():
     c03, c10, c11 = _src("C03"), _src("C10"), _src("C11")
     out = []
     for fid, c in c10.probes():
-        out.append(("C12-to-bytes-overflow", {"src": "C10", "case": c}))
+        out.append(("C12-to-bytes-overflow" if fid.startswith("C10-") else fid, {"src": "C10", "case": c}))
     big_list = {"struct": "ColumnMetaData", "route": "build", "str_as_bytes": False, "allow_big": True,
                 "value": {"type": 1, "encodings": [0], "path_in_schema": [{"str": "x" * 131072}] * 5, "codec": 0, "num_values": 1,
                           "total_uncompressed_size": 1, "total_compressed_size": 1, "data_page_offset": 4}}
